@@ -18,6 +18,7 @@ def run(idx, rep, tier):
         "(R-LOOP), frame consistency of the collider methods the tests call (R-FRAME, engine E2). The delta = 1e-3 L band and agreement on concrete inputs are NOT decided.")
     rep.assumptions = DOMAIN_D
     mink.r_mink(idx, rep, modules=MODS, floor=15)
+    mink.r_swaprows(idx, rep)
     runmin.r_runmin(idx, rep, ["distance3d.gjk._gjk_jolt"], floor=2)
     libccd.r_dosimplex(idx, rep)
     nesterov.r_infl(idx, rep)
